@@ -54,10 +54,55 @@ F19Starts(s0, e) ==
 F22Here(s0, e, f) ==
     /\ f.clause = "TriggerAckLast:pub" /\ e.k = "pub" /\ e.retry > 0 /\ Len(e.stack) < KMaxTrigDepth(s0)
 
+(* ---- F24: a fan-out is retried while siblings of the failed attempt are still outstanding; when
+        a stale sibling is finally wound up, check_pending_results cancels the pending tasks of
+        EVERY result set of the execution, the retried attempt's included: the new attempt is
+        cancelled, its events acknowledged, branch metadata deleted -- the execution is wedged
+        with nothing left to carry it (found by TLC on Engine.tla, replayed on the real code). *)
+F24Clauses == {"CarrierExists", "EventuallyTerminal", "DrainedD0", "DrainedD1", "DrainedD0:broker-unacked",
+               "DrainedD1:broker-unacked", "DrainedD1:queued", "SiblingsCancelled", "SiblingsFrozen:rpc",
+               "SiblingsFrozen:event", "JoinAfterAll", "NothingAfterTerminal", "NotifSeqOK", "TerminalFrozen",
+               "FanOutFailsOnce", "HistAgreesWithRecord", "NoLateEffects:pub"}
+
+(* ---- F16: crash windows in which redelivery does not restore the execution (C04).
+   a  the crash falls between a Task event's notify frame and its deferred (delegate) frame: the
+      request was never sent, and the redelivered event is not sent either (redelivered => no send);
+   b  after a restart a reply is delivered between the redelivered event's notify frame and its
+      delegate frame: it is parked as an orphan and the scan is never scheduled;
+   c  the crash falls after a branch's reply was consumed and acknowledged while its result lived
+      only in the volatile join state: the redelivered (held) branch event waits for a reply that
+      was already consumed;
+   d  a redelivered start event announces RUNNING a second time (and restarts the history).    *)
+KChansOf(b, conn) == {ch \in DOMAIN b.chconn : b.chconn[ch] = conn}
+F16a(s0, e) ==
+    IF e.k # "connlost" THEN {}
+    ELSE {x \in DOMAIN s0.ex : \E t \in s0.timers : t.conn = e.conn /\ t.kind = "delegate" /\
+              \E m \in t.trig : KEv(s0, m).exec = x /\ KEv(s0, m).stype = "Task"}
+F16c(s0, e) ==
+    IF e.k # "connlost" THEN {}
+    ELSE {x \in DOMAIN s0.ex : \E u \in s0.b.unacked :
+              /\ u.ch \in KChansOf(s0.b, e.conn) /\ u.sn \in DOMAIN s0.msg
+              /\ s0.msg[u.sn].kind = "event" /\ s0.msg[u.sn].exec = x
+              /\ \E r \in s0.rpcs : r.base = s0.msg[u.sn].mid /\ r.stage = "done"}
+F16b(s1, e) ==
+    IF e.k = "frame" /\ e.cause = "reply" /\ s1.crashed
+    THEN {KEv(s1, m).exec : m \in {m \in s1.fr.trig : \E t \in s1.timers : t.kind = "delegate" /\ m \in t.trig}} \ {""}
+    ELSE {}
+F16d(s0, e) ==
+    IF e.k = "frame" /\ e.cause = "deliver" /\ e.red /\ e.sn \in DOMAIN s0.msg /\ s0.msg[e.sn].kind = "event"
+       /\ s0.msg[e.sn].state = "" /\ s0.msg[e.sn].exec # ""
+    THEN {s0.msg[e.sn].exec} ELSE {}
+F16Clauses == {"OutcomePreserved", "EventuallyTerminal", "DrainedD0", "DrainedD1", "DrainedD0:broker-unacked",
+               "DrainedD1:broker-unacked", "CarrierExists"}
+F16dClauses == {"NotifSeqOK", "HistoryNeverShrinks", "HistoryWellFormed", "HistAgreesWithRecord", "NotifiedOncePerChange"}
+
 (* ---- taints (execution-scoped territories) -------------------------------------------------- *)
 NewTaints(s0, s1, e, active) ==
     (IF "F19" \in active THEN {<<x, "F19">> : x \in F19Starts(s0, e)} ELSE {})
     \cup (IF "F18" \in active /\ e.k = "frame" /\ F18Frame(s1) THEN {<<x, "F18">> : x \in KTrigOwners(s1)} ELSE {})
+    \cup (IF "F16" \in active THEN {<<x, "F16">> : x \in F16a(s0, e) \cup F16c(s0, e) \cup F16b(s1, e)} ELSE {})
+    \cup (IF "F16" \in active THEN {<<x, "F16d">> : x \in F16d(s0, e)} ELSE {})
+    \cup (IF "F24" \in active /\ e.k = "pub" /\ s1.fr.retrysib /\ ~s0.fr.retrysib THEN {<<e.exec, "F24">>} ELSE {})
 
 TaintsOf(s, x) == IF x \in DOMAIN s.taintX THEN s.taintX[x] ELSE {}
 AnyTaint(s, fid) == \E x \in DOMAIN s.taintX : fid \in s.taintX[x]
@@ -68,6 +113,11 @@ Territory(s0, s1, e, f, active) ==
     ELSE IF "F18" \in active /\ f.clause \in F18Clauses /\ F18Frame(s0) THEN "F18"
     ELSE IF "F18" \in active /\ f.clause = "SiblingsCancelled" /\ f.w = ToString({"delegate"}) THEN "F18"
     ELSE IF "F18" \in active /\ f.clause = "SiblingsCancelled" /\ AnyTaint(s1, "F18") THEN "F18"
+    ELSE IF "F16" \in active /\ f.clause \in F16Clauses /\
+            (IF f.x # "" THEN "F16" \in TaintsOf(s1, f.x) ELSE AnyTaint(s1, "F16")) THEN "F16"
+    ELSE IF "F16" \in active /\ f.clause \in F16dClauses /\ f.x # "" /\ "F16d" \in TaintsOf(s1, f.x) THEN "F16"
+    ELSE IF "F24" \in active /\ f.clause \in F24Clauses /\
+            (IF f.x # "" THEN "F24" \in TaintsOf(s1, f.x) ELSE AnyTaint(s1, "F24")) THEN "F24"
     ELSE IF "F19" \in active /\ f.clause \in F19Clauses /\
             (IF f.x # "" THEN "F19" \in TaintsOf(s1, f.x) ELSE AnyTaint(s1, "F19")) THEN "F19"
     ELSE ""
